@@ -14,6 +14,15 @@ histories:
   CorralLearner._log_barrier_omd (incl. its nested binary_search / lambdas); more than 10**6 line events inside one
   learn => violation (a bisection over doubles needs ~1100 halvings ~ 10**4 line events).  A wall-clock alarm is
   only a backstop and yields INCONCLUSIVE.
+* ADVERSARIAL SEEDS (rare generator states are constructed, not waited for): coba's generator is the LCG
+  s <- (116646453*s + 9) mod 2^30 with uniform s/2^30.  By inverting it the harness computes, for k = 1..40, the
+  seed that puts the LARGEST uniform (1-2^-30) resp. the uniform that is EXACTLY 0.0 on the k-th draw of one
+  learner's own generator (the learner under test, or one base learner inside a Corral; a Corral seeds its generator
+  with seed*1.234, so its seed is a 52-bit integer whose product is an exact integer congruent to the wanted state).
+  The same contracts watch those histories: an extreme draw must still select an action whose current probability is
+  positive and report that probability -- also when the pmf the learner samples from does not sum to exactly 1
+  (Corral's weights are only 1e-4 accurate; FixedLearner accepts any pmf with round(sum,3)==1).  The harness reads the
+  generator state back (frame of the real generator) and counts the cases in which the extreme draw was really made.
 """
 import sys, os, math, signal, traceback, subprocess, json
 from collections import Counter
@@ -25,23 +34,37 @@ RULE  = ("seeded histories (length 0-400) of (context, offered action set, rewar
          "subset of them (eta x T x mode grids), Misguided wrappers; action kinds int(0/1 incl.)/float/str/dense "
          "list/dense tuple/sparse dict/mixed, sets of size 1-6 that stay, permute, grow, shrink, swap or churn; a "
          "case is one history; distinct & non-trivial = distinct (learner configuration, action kind, action "
-         "dynamics, reward pattern, logging mode) with history length >= 3")
-PLAN  = {"quick":    {"shards": 16, "cases": 2400,  "timeout": 600,  "budget_s": 75},
-         "thorough": {"shards": 16, "cases": 60000, "timeout": 3000, "budget_s": 840}}
+         "dynamics, reward pattern, logging mode) with history length >= 3; plus adversarial-seed histories: the seed "
+         "of one learner (top learner or a base learner of a Corral) is computed by LCG inversion so that the k-th "
+         "draw (k = 1..40, enumerated) of its own generator is the largest uniform 1-2^-30 or exactly 0.0, over Corral "
+         "(both modes) and the PMFPredictor learners with pmfs holding leading / trailing zero entries and pmfs that "
+         "sum to slightly less or more than 1; distinct = additionally (target, which uniform, k)")
+ADV_CASES = {"quick": 1600, "thorough": 16000}          # adversarial-seed histories (part of PLAN[...]["cases"])
+ADV_DRAWS = 40
+PLAN  = {"quick":    {"shards": 16, "cases": 2400 + ADV_CASES["quick"],     "timeout": 600,  "budget_s": 80},
+         "thorough": {"shards": 16, "cases": 60000 + ADV_CASES["thorough"], "timeout": 3000, "budget_s": 840}}
 REQUIRED = ["contract.predict.action_offered", "contract.predict.prob_in_range", "contract.predict.prob_is_policy",
             "contract.score.in_range", "contract.corral.weights", "oracle.scores.sum_to_one", "oracle.learn.corral",
             "oracle.learn.logged", "oracle.final_predict", "monitor.omd.line_events", "oracle.learn.corral.eta>=10",
-            "oracle.actions.changed_between_rounds", "oracle.reward.boundary"]
+            "oracle.actions.changed_between_rounds", "oracle.reward.boundary",
+            "adv.placed.corral.uniform=max", "adv.placed.corral.uniform=zero", "adv.placed.corral-base.uniform=max",
+            "adv.placed.corral-base.uniform=zero", "adv.placed.pmf-learner.uniform=max", "adv.placed.pmf-learner.uniform=zero",
+            "adv.reach.corral.uniform=max.draw>=sum(weights)", "adv.reach.corral.uniform=max.draw>=sum(weights)+last-action-prob=0",
+            "adv.reach.corral.uniform=zero.first-action-prob=0", "adv.reach.pmf-learner.uniform=max.last-action-prob=0",
+            "adv.reach.pmf-learner.uniform=zero.first-action-prob=0", "adv.reach.fixed.uniform=max.draw>=sum(pmf)+last-action-prob=0"]
 ASSUMPTIONS = [
     "score == predict's probability and sum(score)==1 are asserted only for Random/Fixed/BanditEpsilon/BanditUCB "
     "(and Misguided over them); Corral's policy is random given the history (it samples its base learners), so for "
     "Corral only validity (action offered, 0 < p <= 1, 0 <= score <= 1, to the 1e-3 slack of its own root search) is asserted",
     "Corral: T >= 2 (T=1 divides by log 1 = 0 in the constructor) and rewards in [0,1] (Misguided over Corral only "
     "with shift/scale that keep the reward in [0,1]); no nested Corral (importance mode hands base learners rewards > 1)",
-    "FixedLearner only meets action sets of exactly len(pmf) actions, pmf sums to 1 within 1e-12",
+    "FixedLearner only meets action sets of exactly len(pmf) actions, pmf sums to 1 within 1e-12; only the adversarial-seed "
+    "histories also use pmfs that FixedLearner's own precondition accepts (entries in [0,1], |sum-1| <= 4e-4): there the scores "
+    "must sum to 1 within 1e-3 only, everything else (action offered, probability > 0, probability == score) is asserted as usual",
     "action sets hold no duplicates (incl. 1 vs 1.0 and list [1,0] vs tuple (1,0)); logged actions are members of the offered set; "
     "logged probabilities lie in [1e-6, 1]",
-    "a zero-weight action drawn because the stream's uniform is exactly 0.0 belongs to C05 and is not reachable with the small seeds used here",
+    "adversarial seeds: the generator state is read from the frame of the real generator (reach accounting and the /uniform= "
+    "suffix of a signature only; no verdict depends on it); Corral seeds are 52-bit integers (any int is a legal seed)",
 ]
 
 STEP_LIMIT   = 10**6
@@ -265,11 +288,14 @@ def gen_case(rng):
     else:
         if top == "fixed" and dyn in ("grow", "shrink"): dyn = "swap"
         learner = gen_base(rng, top, n0 if dyn != "single" else 1)
+    return _gen_history(rng, learner, akind, dyn, n0)
+
+def _gen_history(rng, learner, akind, dyn, n0, length=None):
     const_size = has_kind(learner, "fixed")
 
     universe = gen_universe(rng, akind)
     U = len(universe)
-    length = rng.choice(LENGTHS)
+    if length is None: length = rng.choice(LENGTHS)
     rpat   = rng.choice(REWARDS)
     logm   = rng.choice(LOGGING)
     best   = rng.randrange(U)
